@@ -420,7 +420,31 @@ impl<S: Sut> World<S> {
 
     pub fn exec(&mut self, ev: &Ev) -> Res {
         self.step += 1;
-        let r = self.exec_inner(ev);
+        let mut r = self.exec_inner(ev);
+        if let (Ok(true), true) = (&r, self.cfg.bounce_every) {
+            let touched = match ev {
+                Ev::Edit { node, .. } | Ev::Deliver { node, .. } | Ev::Restart { node, .. } => Some(*node),
+                Ev::DeliverState { dst, .. } => Some(*dst),
+                _ => None,
+            };
+            if let Some(n) = touched {
+                if let Err(f) = self.do_bounce(n) {
+                    r = Err(f);
+                }
+            }
+        }
+        if let (Ok(true), true) = (&r, self.cfg.redundancy_every) {
+            let touched = match ev {
+                Ev::Edit { node, .. } | Ev::Deliver { node, .. } | Ev::Restart { node, .. } => Some(*node),
+                Ev::DeliverState { dst, .. } => Some(*dst),
+                _ => None,
+            };
+            if let Some(n) = touched {
+                if let Err(f) = crate::probes::run_probe(self, &Probe::Redundancy { node: n }) {
+                    r = Err(f);
+                }
+            }
+        }
         match r {
             Ok(true) => self.stats.events += 1,
             // an event that does not apply leaves no trace: steps count applied events only, so that a
